@@ -198,7 +198,7 @@ pub async fn run_one(rep: &mut Report, sub_seed: u64, table: Arc<Vec<Vec<u8>>>, 
 }
 
 pub fn run(rep: &mut Report) {
-    rep.rule = "system histories (proxies registered, cluster created, resized with real data-path migrations, proxies failed / revived, rebalanced, config changed, coordinator rounds in between) with the production JsonFileStorage persisting the broker after every operation; the broker is then replaced by a NEW MemBrokerService loaded from the file of a chosen earlier operation (crash point), epoch recovery runs with the largest epoch reported by the proxies (UMCTL GETEPOCH), and the real coordinator components are driven round by round against the recovered broker. Oracle: every served view strictly above every proxy epoch; convergence (epochs, replication roles, no uncommitted migration) within 30 + 6 x pending-migrations rounds; partition monitor and routing probes afterwards. distinct_nontrivial = distinct (operations lost, epoch distance, kinds of lost operations)".to_string();
+    rep.rule = "system histories (proxies registered, cluster created, resized with real data-path migrations, proxies failed / revived, rebalanced, config changed, coordinator rounds in between) with the production JsonFileStorage persisting the broker after every operation; the broker is then replaced by a NEW MemBrokerService loaded from the file of a chosen earlier operation (crash point), epoch recovery runs with the largest epoch reported by the proxies (UMCTL GETEPOCH), and the real coordinator components are driven round by round against the recovered broker. Oracle: every served view strictly above every proxy epoch; convergence (epochs, replication roles, no uncommitted migration) within 30 + 6 x pending-migrations rounds; partition monitor and routing probes afterwards. Leg B (tcp_* counters): broker histories against real ServerProxyService listeners on 127.x.y.1, metadata synced over TCP, a chosen earlier metadata file restored into a new broker, some listeners stopped, then the production recover_epoch(); oracle: stopped proxies are among the reported failed addresses, every served view is strictly above every reachable proxy epoch (read by the harness over its own TCP connections), proxies adopt the recovered views within 6 TCP sync rounds. distinct_nontrivial = distinct (operations lost, epoch distance, kinds of lost operations) for leg A plus distinct (operations lost, epoch distance, proxies down, proxies known) for leg B".to_string();
     let thorough = rep.is_thorough();
     let n: u64 = if thorough { 6000 } else { 240 };
     let table = Arc::new(slot_keys());
@@ -211,5 +211,374 @@ pub fn run(rep: &mut Report) {
     rep.floor("recoveries_where_proxies_are_ahead_of_the_snapshot", 30);
     rep.floor("recoveries_converged", 80);
     rep.floor("served_epochs_compared", 500);
-    rep.assumptions.push("epoch recovery is driven through the cfg-guarded MemBrokerService::verif_recover_epoch with the maximum of the proxies' UMCTL GETEPOCH replies (the production path collects the same number over TCP); proxies that are down at recovery time are excluded, as the production API reports them as failed addresses".to_string());
+    // leg B: production recover_epoch() over loopback TCP
+    let tcp_n: u64 = std::env::var("VERIF_TCP_N").ok().and_then(|v| v.parse().ok()).unwrap_or(if thorough { 1600 } else { 64 });
+    run_tcp(rep, tcp_n, 8);
+    rep.floor("tcp_recoveries", if thorough { 800 } else { 40 });
+    rep.floor("tcp_served_epochs_compared", 150);
+    rep.floor("tcp_recoveries_where_proxies_are_ahead_of_the_snapshot", 10);
+    rep.floor("tcp_down_proxies_checked", 5);
+    rep.floor("tcp_recoveries_adopted", 30);
+    rep.assumptions.push("leg A (simulated system, virtual time) drives epoch recovery through the cfg-guarded MemBrokerService::verif_recover_epoch with the maximum of the proxies' UMCTL GETEPOCH replies; leg B runs the unmodified production MemBrokerService::recover_epoch() (fetch_max_epoch over TCP) against real ServerProxyService listeners on loopback addresses, with metadata delivered by the coordinator's real synchronizer through the production PooledRedisClientFactory; a proxy that is reachable but was reported as failed by recover_epoch (1 s production timeout on a loaded machine) is excluded from the maximum and counted, not judged".to_string());
 }
+
+// ---------------------------------------------------------------------------------------------
+// Leg B: the unmodified production `MemBrokerService::recover_epoch()` (fetch_max_epoch over
+// TCP) against real `ServerProxyService`s listening on loopback addresses, metadata delivered by
+// the coordinator's real synchronizer through the production `PooledRedisClientFactory`.
+
+mod tcp {
+    use super::*;
+    use std::collections::{BTreeMap, BTreeSet};
+    use std::sync::atomic::{AtomicU64, Ordering};
+    use std::time::Duration;
+    use tokio::io::{AsyncReadExt, AsyncWriteExt};
+    use undermoon::coordinator::verif::core::{ProxyMetaRespSynchronizer, ProxyMetaSynchronizer};
+    use undermoon::coordinator::verif::detector::BrokerOrderedProxiesRetriever;
+    use undermoon::coordinator::verif::sync::{BrokerMetaRetriever, ProxyMetaRespSender};
+    use undermoon::protocol::PooledRedisClientFactory;
+    use undermoon::proxy::service::ServerProxyService;
+    use futures::StreamExt;
+
+    static HOST_BLOCK: AtomicU64 = AtomicU64::new(0);
+
+    /// `UMCTL GETEPOCH` over a fresh TCP connection: Some(epoch) / None when nobody answers.
+    pub async fn tcp_epoch(addr: &str) -> Option<u64> {
+        let fut = async {
+            let mut s = tokio::net::TcpStream::connect(addr).await.ok()?;
+            s.write_all(b"*2\r\n$5\r\nUMCTL\r\n$8\r\nGETEPOCH\r\n").await.ok()?;
+            let mut buf = vec![];
+            let mut chunk = [0u8; 64];
+            loop {
+                let n = s.read(&mut chunk).await.ok()?;
+                if n == 0 {
+                    return None;
+                }
+                buf.extend_from_slice(&chunk[..n]);
+                if buf.ends_with(b"\r\n") {
+                    break;
+                }
+            }
+            let text = String::from_utf8_lossy(&buf).to_string();
+            text.trim().strip_prefix(':').and_then(|t| t.parse::<u64>().ok())
+        };
+        tokio::time::timeout(Duration::from_secs(5), fut).await.ok().flatten()
+    }
+
+    struct Live {
+        stop: futures::channel::mpsc::UnboundedSender<()>,
+        up: bool,
+    }
+
+    async fn sync_round(adapter: &Arc<BrokerAdapter>, factory: &Arc<PooledRedisClientFactory>, compress: bool) -> usize {
+        let sync = ProxyMetaRespSynchronizer::new(
+            BrokerOrderedProxiesRetriever::new(adapter.clone()),
+            BrokerMetaRetriever::new(adapter.clone()),
+            ProxyMetaRespSender::new(factory.clone(), compress),
+        );
+        let v: Vec<_> = sync.run().collect().await;
+        v.iter().filter(|r| r.is_err()).count()
+    }
+
+    pub async fn run_one(rep: &mut Report, sub_seed: u64) {
+        let mut rng = Rng::new(sub_seed);
+        let meta_file = scratch_file("tlive", sub_seed);
+        let snap_file = scratch_file("tsnap", sub_seed);
+        let cleanup = || {
+            let _ = std::fs::remove_file(&meta_file);
+            let _ = std::fs::remove_file(&snap_file);
+        };
+        let cfg = crate::broker::BrokerCfg { migration_limit: *rng.pick(&[0u64, 1, 2]), failure_ttl: 600, failure_quorum: 1, ordered: false };
+        let broker = crate::broker::new_service(&cfg, &meta_file);
+        let net = SimNet::new();
+        let opts = ProxyOpts { backend_conn_num: 1, ..Default::default() };
+        // loopback hosts 127.<block>.<h>.1; the service binds 0.0.0.0:<port>, so ports are unique per process
+        let block = (HOST_BLOCK.fetch_add(1, Ordering::SeqCst) % 200 + 1) as usize;
+        let n_hosts = rng.urange(2, 4);
+        let hosts: Vec<String> = (0..n_hosts).map(|h| format!("127.{}.{}.1", block, h + 1)).collect();
+        let mut live: BTreeMap<String, Live> = BTreeMap::new();
+        let mut log: Vec<serde_json::Value> = vec![];
+        let mut per_host = vec![0usize; n_hosts];
+        let n_proxies = rng.urange(4, 8);
+        for i in 0..n_proxies {
+            let h = i % n_hosts;
+            let port = match std::net::TcpListener::bind("0.0.0.0:0").ok().and_then(|l| l.local_addr().ok()).map(|a| a.port()) {
+                Some(p) => p,
+                None => {
+                    cleanup();
+                    return rep.count("runs_skipped_no_port", 1);
+                }
+            };
+            let addr = format!("{}:{}", hosts[h], port);
+            let nodes = [format!("{}:{}", hosts[h], 20000 + per_host[h] * 2), format!("{}:{}", hosts[h], 20001 + per_host[h] * 2)];
+            per_host[h] += 1;
+            for n in nodes.iter() {
+                net.add_redis(n);
+            }
+            let p = net.add_proxy(&addr, &opts);
+            let service = ServerProxyService::new(p.config.clone(), p.handler.clone(), p.slow_logger.clone(), p.registry.clone());
+            let (stop_tx, stop_rx) = futures::channel::mpsc::unbounded();
+            tokio::spawn(async move {
+                let _ = service.run(stop_rx).await;
+            });
+            live.insert(addr.clone(), Live { stop: stop_tx, up: true });
+            let payload = json!({"proxy_address": addr, "nodes": nodes, "host": hosts[h], "index": null});
+            if let Ok(pl) = serde_json::from_value(payload) {
+                let r = broker.add_proxy(pl).await.map_err(|e| e.to_string());
+                log.push(json!({"op": "add_proxy", "address": addr, "result": format!("{:?}", r)}));
+            }
+        }
+        // every listener must be up before the history starts (bind races with other processes => skip, no verdict)
+        for a in live.keys() {
+            let mut ok = false;
+            for _ in 0..50 {
+                if tcp_epoch(a).await.is_some() {
+                    ok = true;
+                    break;
+                }
+                tokio::time::sleep(Duration::from_millis(20)).await;
+            }
+            if !ok {
+                for l in live.values() {
+                    let _ = l.stop.unbounded_send(());
+                }
+                cleanup();
+                return rep.count("runs_skipped_listener_not_up", 1);
+            }
+        }
+        let adapter = Arc::new(BrokerAdapter::new(broker.clone(), "coord-tcp"));
+        let factory = Arc::new(PooledRedisClientFactory::new(2, Duration::from_secs(3)));
+        let compress = rng.chance(1, 2);
+        let r = broker.add_cluster(CLUSTER.to_string(), 4).await.map_err(|e| e.to_string());
+        log.push(json!({"op": "add_cluster 4", "result": format!("{:?}", r)}));
+        let mut snapshots: Vec<(usize, Vec<u8>, u64)> = vec![];
+        let n_ops = rng.urange(3, 9);
+        for i in 0..n_ops {
+            let what = match rng.below(10) {
+                0..=3 => {
+                    let errs = sync_round(&adapter, &factory, compress).await;
+                    format!("sync round ({} errors)", errs)
+                }
+                4 | 5 => {
+                    let mut m = std::collections::HashMap::new();
+                    let (k, v) = *rng.pick(&[("compression_strategy", "allow_all"), ("compression_strategy", "disabled"), ("migration_scan_count", "3")]);
+                    m.insert(k.to_string(), v.to_string());
+                    format!("config {}={} {:?}", k, v, broker.change_config(CLUSTER.to_string(), m).await.map_err(|e| e.to_string()))
+                }
+                6 => format!("balance {:?}", broker.balance_masters(CLUSTER.to_string()).await.map_err(|e| e.to_string())),
+                7 => {
+                    let members: Vec<String> = match broker.get_cluster_by_name(CLUSTER).await.ok().flatten() {
+                        Some(c) => c.get_nodes().iter().map(|n| n.get_proxy_address().to_string()).collect::<BTreeSet<_>>().into_iter().collect(),
+                        None => vec![],
+                    };
+                    match rng.pick_opt(&members) {
+                        Some(a) => format!("replace_failed_proxy {} {:?}", a, broker.replace_failed_proxy(a.clone()).await.map(|p| p.map(|p| p.get_address().to_string())).map_err(|e| e.to_string())),
+                        None => "no member".to_string(),
+                    }
+                }
+                _ => {
+                    let r = broker.auto_scale_up_nodes(CLUSTER.to_string(), 8).await.map(|_| ()).map_err(|e| e.to_string());
+                    if r.is_ok() {
+                        let _ = sync_round(&adapter, &factory, compress).await;
+                        format!("scale to 8: {:?}", broker.migrate_slots(CLUSTER.to_string()).await.map_err(|e| e.to_string()))
+                    } else {
+                        format!("scale to 8: {:?}", r)
+                    }
+                }
+            };
+            log.push(json!({"op": what}));
+            if broker.update_meta_file().await.is_ok() {
+                if let Ok(bytes) = std::fs::read(&meta_file) {
+                    snapshots.push((i, bytes, broker.get_epoch().await.unwrap_or(0)));
+                }
+            }
+        }
+        // proxies catch up with the broker that is about to be lost
+        for _ in 0..rng.urange(0, 2) {
+            let _ = sync_round(&adapter, &factory, compress).await;
+        }
+        if snapshots.is_empty() {
+            cleanup();
+            return rep.inconclusive("tcp leg: no snapshot could be written");
+        }
+        let (op_index, bytes, snap_epoch) = snapshots[rng.usize_below(snapshots.len())].clone();
+        let lost_epoch = broker.get_epoch().await.unwrap_or(0);
+        // some proxies are down while the recovery runs
+        let mut down: BTreeSet<String> = BTreeSet::new();
+        if rng.chance(1, 2) {
+            let addrs: Vec<String> = live.keys().cloned().collect();
+            for _ in 0..rng.urange(1, 2) {
+                let a = rng.pick(&addrs).clone();
+                if let Some(l) = live.get_mut(&a) {
+                    if l.up {
+                        let _ = l.stop.unbounded_send(());
+                        l.up = false;
+                        down.insert(a);
+                    }
+                }
+            }
+            // the accept loop ends asynchronously
+            for a in down.iter() {
+                for _ in 0..100 {
+                    if tokio::net::TcpStream::connect(a.as_str()).await.is_err() {
+                        break;
+                    }
+                    tokio::time::sleep(Duration::from_millis(10)).await;
+                }
+            }
+        }
+        if std::fs::write(&snap_file, &bytes).is_err() {
+            cleanup();
+            return rep.inconclusive("tcp leg: cannot write snapshot file");
+        }
+        let new_broker = match crate::broker::new_service_from_file(&cfg, &snap_file).await {
+            Ok(b) => b,
+            Err(e) => {
+                cleanup();
+                rep.violation("C13:snapshot-cannot-be-restored", format!("a metadata file written by the broker cannot be loaded again: {}", e), json!({"sub_seed": sub_seed, "history": log}));
+                return;
+            }
+        };
+        let known = new_broker.get_proxy_addresses(None, None).await.unwrap_or_default();
+        // what the proxies hold, read by the harness over its own TCP connections
+        let mut holders: BTreeMap<String, u64> = BTreeMap::new();
+        for a in known.iter() {
+            if let Some(e) = tcp_epoch(a).await {
+                holders.insert(a.clone(), e);
+            }
+        }
+        let ctx = |extra: serde_json::Value| {
+            json!({"sub_seed": sub_seed, "leg": "tcp", "crash_point": {"snapshot_after_op_index": op_index, "snapshot_global_epoch": snap_epoch, "broker_epoch_when_lost": lost_epoch},
+                "history": log, "proxy_epochs_at_recovery": holders, "down": down, "detail": extra})
+        };
+        let failed = match new_broker.recover_epoch().await {
+            Ok(f) => f,
+            Err(e) => {
+                cleanup();
+                rep.violation("C13:recovery-refused", format!("production recover_epoch failed: {}", e), ctx(json!({})));
+                return;
+            }
+        };
+        rep.evaluations += 1;
+        rep.count("tcp_recoveries", 1);
+        rep.distinct(format!("tcp|{}|{}|{}|{}", snapshots.len() - 1 - snapshots.iter().position(|s| s.0 == op_index).unwrap_or(0), lost_epoch.saturating_sub(snap_epoch), down.len(), known.len()).as_bytes());
+        let failed_set: BTreeSet<String> = failed.iter().cloned().collect();
+        // a proxy that is down must be reported as failed (the operator is told that its epoch is unknown)
+        for a in known.iter() {
+            if down.contains(a) {
+                rep.count("tcp_down_proxies_checked", 1);
+                if !failed_set.contains(a) {
+                    rep.violation("C13:down-proxy-not-reported-by-recovery", format!("{} does not listen but recover_epoch did not list it among the failed addresses {:?}", a, failed), ctx(json!({})));
+                }
+            }
+        }
+        let considered: Vec<(String, u64)> = holders.iter().filter(|(a, _)| !failed_set.contains(*a)).map(|(a, e)| (a.clone(), *e)).collect();
+        let spurious = holders.keys().filter(|a| failed_set.contains(*a)).count();
+        if spurious > 0 {
+            rep.count("tcp_reachable_proxies_reported_failed", spurious as u64);
+        }
+        let max_epoch = considered.iter().map(|(_, e)| *e).max().unwrap_or(0);
+        if max_epoch > snap_epoch {
+            rep.count("tcp_recoveries_where_proxies_are_ahead_of_the_snapshot", 1);
+        }
+        if !down.is_empty() {
+            rep.count("tcp_recoveries_with_down_proxies", 1);
+        }
+        for a in known.iter() {
+            if let Some(v) = new_broker.get_proxy_by_address(a).await.ok().flatten() {
+                rep.count("tcp_served_epochs_compared", 1);
+                if v.get_epoch() <= max_epoch {
+                    rep.violation(
+                        "C13:recovered-epoch-not-above-proxy-epochs",
+                        format!("after the production recover_epoch the view served for {} has epoch {} but a reachable proxy holds epoch {}", a, v.get_epoch(), max_epoch),
+                        ctx(json!({"failed_addresses": failed})),
+                    );
+                    break;
+                }
+                for (clause, msg) in check_proxy_view(&v) {
+                    rep.violation(format!("C13:recovered-view-partition:{}", clause), msg, ctx(json!({})));
+                }
+            }
+        }
+        // the recovered broker's views are adopted over TCP within a bounded number of sync rounds
+        let adapter2 = Arc::new(BrokerAdapter::new(new_broker.clone(), "coord-tcp-2"));
+        let factory2 = Arc::new(PooledRedisClientFactory::new(2, Duration::from_secs(3)));
+        let mut diffs = vec![];
+        let mut used = 0;
+        // proxies marked failed at the broker are skipped by the coordinator's retriever by design
+        let broker_failed: BTreeSet<String> = new_broker.get_failed_proxies().await.unwrap_or_default().into_iter().collect();
+        for r in 0..6 {
+            let _ = sync_round(&adapter2, &factory2, compress).await;
+            used = r + 1;
+            diffs.clear();
+            for a in known.iter() {
+                if down.contains(a) || broker_failed.contains(a) {
+                    continue;
+                }
+                let want = new_broker.get_proxy_by_address(a).await.ok().flatten().map(|v| v.get_epoch());
+                let got = tcp_epoch(a).await;
+                if want.is_some() && got != want {
+                    diffs.push(format!("{}: proxy epoch {:?}, recovered view epoch {:?}", a, got, want));
+                }
+            }
+            if diffs.is_empty() {
+                break;
+            }
+        }
+        rep.set_max("max_tcp_rounds_to_adopt", used as u64);
+        if !diffs.is_empty() {
+            rep.violation("C13:proxies-do-not-adopt-the-recovered-view", format!("tcp leg, {} sync rounds after recovery: {}", used, diffs.join("; ")), ctx(json!({})));
+        } else {
+            rep.count("tcp_recoveries_adopted", 1);
+        }
+        if rep.counter("tcp_samples") < 1 {
+            rep.count("tcp_samples", 1);
+            rep.sample(ctx(json!({"failed_addresses": failed, "rounds_to_adopt": used})));
+        }
+        for l in live.values() {
+            let _ = l.stop.unbounded_send(());
+        }
+        cleanup();
+    }
+
+    pub fn run(rep: &mut Report, n: u64, threads: usize) {
+        let next = Arc::new(AtomicU64::new(0));
+        let seed = rep.seed ^ 0x7c9;
+        let mut handles = vec![];
+        for _ in 0..threads {
+            let next = next.clone();
+            let (prop, tier) = (rep.property.clone(), rep.tier.clone());
+            handles.push(std::thread::spawn(move || {
+                let mut local = Report::new(&prop, &tier, seed);
+                let rt = match tokio::runtime::Builder::new_multi_thread().worker_threads(2).enable_all().build() {
+                    Ok(rt) => rt,
+                    Err(_) => {
+                        local.inconclusive("tcp leg: cannot build runtime");
+                        return local;
+                    }
+                };
+                loop {
+                    let i = next.fetch_add(1, Ordering::SeqCst);
+                    if i >= n {
+                        break;
+                    }
+                    let sub = Rng::sub_seed(seed, i);
+                    // wall-clock watchdog: only ever inconclusive
+                    let r = rt.block_on(async { tokio::time::timeout(Duration::from_secs(120), run_one(&mut local, sub)).await });
+                    if r.is_err() {
+                        local.inconclusive(format!("tcp leg: scenario {} did not finish within 120 s of wall-clock time", sub));
+                    }
+                }
+                local
+            }));
+        }
+        for h in handles {
+            match h.join() {
+                Ok(l) => rep.merge(l),
+                Err(_) => rep.inconclusive("tcp leg: worker thread panicked"),
+            }
+        }
+    }
+}
+
+pub use tcp::run as run_tcp;
